@@ -7,6 +7,8 @@ import (
 	"path/filepath"
 	"runtime/pprof"
 	"strings"
+	"sync/atomic"
+	"time"
 )
 
 type propRunner func(tier string, seed uint64)
@@ -47,6 +49,27 @@ func main() {
 		os.Exit(2)
 	}
 	statsPath = *statsFile
+	// watchdog: a request that never returns (a handler spinning or waiting for a lock that nobody holds any
+	// more) would keep this process until the caller's time limit; when nothing has been written for a long
+	// while, say which request is in flight and end the run the way a timeout would (exit status 124)
+	limit := 150 * time.Second
+	if *tier == "thorough" {
+		limit = 900 * time.Second
+	}
+	atomic.StoreInt64(&lastEmit, time.Now().UnixNano())
+	go func() {
+		for {
+			time.Sleep(5 * time.Second)
+			if idle := time.Since(time.Unix(0, atomic.LoadInt64(&lastEmit))); idle > limit {
+				emitMu.Lock()
+				out.Flush()
+				cur, _ := inFlight.Load().(string)
+				fmt.Fprintf(os.Stderr, "WATCHDOG: nothing written for %s; request in flight: %s\n", idle.Round(time.Second), cur)
+				writeStats(statsPath)
+				os.Exit(124)
+			}
+		}
+	}()
 	run(*tier, *seed)
 	out.Flush()
 	writeStats(*statsFile)
